@@ -116,6 +116,7 @@ def invariant(lib, cls, st, side):
         p, b = rep.val.items[0].t, rep.val.items[1].t
         running = z3.And(z3.Not(rep.isnone), p >= 0, b >= 0)
         out.append(("I-acc.state-rep-domain", z3.Or(rep.isnone, z3.And(p == -1, b == -1), z3.And(p >= 0, b >= 0)), ("C17",)))
+        out.append(("I-acc.clock-started-once-set-up-is-over", z3.Implies(running, z3.Not(last.isnone)), ("C17",)))
         out.append(("I-acc.no-state-change-recorded-during-setup",
                     z3.Implies(z3.And(z3.Not(rep.isnone), p == -1), last.isnone), ("C17",)))
         sa = f[TT + "SETUP_STATE"].t + sum(f[TT + k].t for k in GROUP_A)
